@@ -224,6 +224,21 @@ def generate(rng, tier, run):
             ops.append(['parse', ci, d2, tolerant, ['general', 'nocomments-in-math']])
             if rng.random() < 0.7:
                 ops.append(['parse', ci, d2, tolerant, ['general']])
+        elif x < 0.648 and docgen.base_kind(recipes[ci]) in ('K0', 'K1', 'K2', 'K3') and recipes[ci][0] != 'extended':
+            # several short-lived contexts derived from one long-lived context, each used for one parse
+            k1 = docgen.base_kind(recipes[ci]) in ('K1', 'K2')
+            dd = ['\\begin{xs}\\step[x]{mix}\\mb{a}[b]\\end{xs} \\step{y}', '\\begin{xa}\\xam[o]{a}{b} \\mb[c]{d}\\end{xa}',
+                  '\\begin{xb}\\xam{p}{q}\\begin{xs}\\step{s}\\mb{e}\\end{xs}\\end{xb}', '\\defs{x} a~~b', doc] if k1 else \
+                 ['\\begin{equation}a % c\n\\end{equation}', '\\newcommand{\\foo}[1]{x} \\foo{y}', doc, doc]
+            # the short-lived contexts differ in what \mb means, so that definitions picked up from
+            # the wrong one show
+            hows = [['filtered', {}], ['extended', [['mb', ['[', '{']]]], ['extended', [['mb', []]]],
+                    ['extended', [['xq', ['{']]]], ['filtered', {'exclude_categories': ['k1-legacy', 'natbib']}],
+                    ['extended', [['mb', ['{', '[']], ['step', ['{']]]]]
+            d3 = rng.choice(dd)
+            ops.append(['parse_tmp', ci, d3, tolerant, [rng.choice(hows) for _ in range(rng.randint(2, 4))]])
+            if rng.random() < 0.5:
+                ops.append(['parse_tmp', ci, rng.choice(dd), tolerant, [rng.choice(hows) for _ in range(rng.randint(2, 3))]])
         elif x < 0.652 and docgen.base_kind(recipes[ci]) in ('K1', 'K2'):
             # pairs of documents that use one spec object in two different ways
             fam = rng.randrange(4)
@@ -352,6 +367,25 @@ def parse_general(ctx, kind, doc, tolerant, clock=None, custom=None, flags=None)
 
 def do_op(ctx, kind, op, clock=None):
     """Execute a parse / parse_nested operation; returns the canonical dump."""
+    if op[0] == 'parse_tmp':
+        # a context derived for this one parse and dropped afterwards (its address may be reused
+        # by the next one); spec objects are shared with the long-lived parent
+        import gc
+        _, _, doc, tolerant, hows = op
+        keep_was = KEEP['on']
+        KEEP['on'] = False           # nothing may keep a temporary context alive
+        out = []
+        try:
+            for how in hows:
+                # back to back: derive, parse, drop -- the next context is likely to get the
+                # address of the one just dropped
+                tmp = docgen.derive_context(ctx, [how[0], None, how[1]])
+                out.append(parse_general(tmp, kind, doc, tolerant, clock))
+                del tmp
+                gc.collect()
+        finally:
+            KEEP['on'] = keep_was
+        return out
     if op[0] == 'parse':
         doc, tolerant, entry = op[2], op[3], op[4]
         flags = op[5] if len(op) > 5 else None
@@ -545,11 +579,16 @@ def execute(program):
             continue
         before = [context_snapshot(c) for c, _ in ctxs]
         rec = {'op': kind, 'ctx': ci, 'recipe': list(recipe)}
-        if kind in ('parse', 'parse_nested'):
+        if kind == 'parse_tmp' and (ctx is None or not hasattr(ctx, 'categories')):
+            trace.append({'op': kind, 'skipped': True})
+            continue
+        if kind in ('parse', 'parse_nested', 'parse_tmp'):
             rec['request'] = [op[0], 0] + list(op[2:])
             rec['result'] = do_op(ctx, rkind, op, clock)
             rec['compare'] = True
             stats.inc('op:' + kind + ('-' + op[4][0] if kind == 'parse' else ''))
+            if kind == 'parse_tmp' and isinstance(rec['result'], dict) and rec['result'].get('error') == 'EXC:ValueError':
+                pass
             if op[0] == 'parse' and op[3]:
                 stats.inc('probe:tolerant-parse')
             if rec['result'] == simparse.BUDGET or (isinstance(rec['result'], dict) and
@@ -732,6 +771,13 @@ def run_program(program, env):
     stateful_positions = []
     wanted = []
     for i, rec in enumerate(trace):
+        if rec.get('op') == 'parse_tmp' and rec.get('compare'):
+            # every temporary context is referenced on its own (a fresh process that derives one
+            # context and parses once)
+            rq = rec['request']
+            for how in rq[4]:
+                wanted.append((rec['recipe'], rq[:4] + [[how]]))
+            continue
         if rec.get('compare') and not is_recursion(rec['result']):
             wanted.append((rec['recipe'], rec['request']))
             if rec['op'] == 'parse_nested':
@@ -750,6 +796,25 @@ def run_program(program, env):
         if rec.get('stateful'):
             stateful_positions.append(i)
         if not rec.get('compare'):
+            continue
+        if rec['op'] == 'parse_tmp':
+            rq = rec['request']
+            for k, how in enumerate(rq[4]):
+                a, b = _references(env, rec['recipe'], rq[:4] + [[how]], stats)
+                stats.inc('compared-parses')
+                stats.inc('probe:temporary-context-parse-compared')
+                if a != b:
+                    violation = {'invariant': 'hash-seed-independence', 'op_index': i, 'op': op,
+                                 'observed': _diff(a, b), 'expected': 'equal results under both hash seeds'}
+                    break
+                if k < len(rec['result']) and [rec['result'][k]] != a and not is_recursion(rec['result'][k]):
+                    violation = {'invariant': 'result-purity', 'op_index': i, 'op': op,
+                                 'observed': _diff([rec['result'][k]], a),
+                                 'expected': 'parse with temporary context %d of this operation equals the same '
+                                             'derivation and parse in a fresh interpreter' % k}
+                    break
+            if violation:
+                break
             continue
         if is_recursion(rec['result']):
             stats.inc('not-compared-recursion')
@@ -815,7 +880,7 @@ def shrink_candidates(program):
     for i, op in enumerate(ops):
         def repl(new):
             return dict(program, ops=ops[:i] + [new] + ops[i + 1:])
-        if op[0] in ('parse', 'abort', 'parse_nested') and isinstance(op[2], str) and len(op[2]) > 1:
+        if op[0] in ('parse', 'abort', 'parse_nested', 'parse_tmp') and isinstance(op[2], str) and len(op[2]) > 1:
             doc = op[2]
             n = len(doc)
             # halves, then single characters (bounded)
@@ -826,6 +891,9 @@ def shrink_candidates(program):
             for c in cands:
                 if c != doc:
                     yield repl(op[:2] + [c] + op[3:])
+        if op[0] == 'parse_tmp' and len(op[4]) > 1:
+            for k in range(len(op[4])):
+                yield repl(op[:4] + [op[4][:k] + op[4][k + 1:]])
         if op[0] == 'parse_nested' and len(op[3]) > 1:
             yield repl(op[:3] + [op[3][:len(op[3]) // 2]] + op[4:])
             yield repl(op[:3] + ['a'] + op[4:])
